@@ -302,5 +302,132 @@ def ItemOutcome.refusedWith : ItemOutcome → Refusal → Bool
   | .connect (.refused st w), why => w == why && st == why.status
   | _, _ => false
 
+/-! ### the two serving paths of the proxy (`HTTPProxy.Run`) and the URL host the controls see
+
+`HTTPProxy.Run` serves either through martian's own connection loop (`proxyConn.readRequest` + `handle`,
+the default) or — `TestingHTTPHandler`, `NewHTTPProxyHandler` — through `proxyHandler.ServeHTTP` under
+net/http's server. The request modifiers (so the four controls) and the round trip are the same code on both
+paths; what differs is the `req.URL.Host` they are handed for an ORIGIN-FORM request (`GET /path` + `Host`):
+`proxyConn.readRequest` completes an empty URL host from `req.Host` when it READS the request, net/http's
+server hands the handler the request as sent and `proxyHandler.handleRequest` leaves the URL as it is, so the
+modifiers see an empty host and `http.Transport.RoundTrip` then refuses the URL (`http: no Host in request
+URL`): the client gets the proxy's own error response, nothing is dialled. The place where the URL host is
+completed is a parameter (`Completion`), so that "completed after the controls ran" is expressible. -/
+
+inductive ServerVariant where
+  | connLoop                          -- martian's connection loop
+  | handler                           -- martian as `http.Handler` under net/http's server
+  deriving Repr, DecidableEq
+
+/-- when `req.URL.Host` of a request that carries its authority in the Host field only is completed -/
+inductive Completion where
+  | atRead                            -- `proxyConn.readRequest`: before the request modifiers
+  | never                             -- `proxyHandler`: not at all
+  | beforeRoundTrip                   -- (counter-model) after the request modifiers, right before `rt.RoundTrip`
+  deriving Repr, DecidableEq
+
+def ServerVariant.completion : ServerVariant → Completion
+  | .connLoop => .atRead
+  | .handler => .never
+
+/-- the EFFECTIVE target of a read request: the URL host, else the Host field -/
+def effectiveHost (g0 : GoReq) : Bytes := if g0.urlHost.isEmpty then g0.host else g0.urlHost
+
+/-- `req.URL.Host` while the request modifiers run -/
+def Completion.seenHost : Completion → GoReq → Bytes
+  | .atRead, g0 => effectiveHost g0
+  | .never, g0 => g0.urlHost
+  | .beforeRoundTrip, g0 => g0.urlHost
+
+/-- `req.URL.Host` when `rt.RoundTrip` is called -/
+def Completion.tripHost : Completion → GoReq → Bytes
+  | .atRead, g0 => effectiveHost g0
+  | .never, g0 => g0.urlHost
+  | .beforeRoundTrip, g0 => effectiveHost g0
+
+/-- the configuration as the part of the stack BEHIND the four controls uses it (none of the host lists is
+    read there): `processRequest (pastControls cfg)` is the rest of the pipeline of a request whose time-frame
+    and credentials checks passed -/
+def pastControls (cfg : Cfg) : Cfg := { cfg with denyLocalhost := false, denyExact := [], denyRules := [] }
+
+/-- outcome of a non-CONNECT request on a serving path -/
+inductive VOutcome where
+  | served (o : Outcome)              -- as `Req.Outcome` (for the handler path the forwarded head's `Via` version is not claimed: the handler sets HTTP/1.1)
+  | serverRefused                     -- net/http's server answers `400` itself, the handler does not run
+  | noHost                            -- the modifiers passed, `http.Transport` refuses the URL without host: the proxy's own error response (500), nothing dialled
+  deriving Repr
+
+/-- the request pipeline with the URL host completed at `k` -/
+def processRequestAt (k : Completion) (cfg : Cfg) (ctx : Ctx) (r : Request) : VOutcome :=
+  match readRequest r with
+  | .error _ => .served .unreadable
+  | .ok g0 =>
+    match securityCheck cfg { g0 with urlHost := k.seenHost g0 } with
+    | some why => .served (.refused why.status why)
+    | none =>
+      let rest := processRequest (pastControls cfg) ctx r
+      if (k.tripHost g0).isEmpty then
+        match rest with
+        | .forwarded _ _ => .noHost
+        | .routeError => .noHost
+        | o => .served o
+      else .served rest
+
+/-- net/http's server refuses an HTTP/1.1 request without a Host field line before the handler runs
+    (`missing required Host header`; CONNECT is exempt) -/
+def serverRejects (v : ServerVariant) (r : Request) : Bool :=
+  v == .handler && decide (r.minor ≥ 1) && (hget (toHeader r.fields) (bs "Host")).isEmpty
+
+def processRequestV (v : ServerVariant) (cfg : Cfg) (ctx : Ctx) (r : Request) : VOutcome :=
+  if serverRejects v r then .serverRefused else processRequestAt v.completion cfg ctx r
+
+/-- upstream activity on behalf of a non-CONNECT request with the URL host completed at `k` -/
+def requestActionsAt (k : Completion) (cfg : Cfg) (ctx : Ctx) (r : Request) : List Action :=
+  match processRequestAt k cfg ctx r with
+  | .served (.forwarded _ _) => requestActions (pastControls cfg) ctx r
+  | _ => []
+
+def requestActionsV (v : ServerVariant) (cfg : Cfg) (ctx : Ctx) (r : Request) : List Action :=
+  if serverRejects v r then [] else requestActionsAt v.completion cfg ctx r
+
+/-- CONNECT carries its authority in the request-target on both paths (`req.URL.Host`); the handler path does
+    not intercept (`proxyHandler.handleConnectRequest` goes straight to `Proxy.Connect`) -/
+def connectCfg (v : ServerVariant) (cfg : Cfg) : Cfg :=
+  match v with
+  | .connLoop => cfg
+  | .handler => { cfg with mitm := false }
+
+def processConnectV (v : ServerVariant) (cfg : Cfg) (ctx : Ctx) (c : ConnectReq) : ConnectOutcome :=
+  processConnect (connectCfg v cfg) ctx c
+
+def connectActionsV (v : ServerVariant) (cfg : Cfg) (ctx : Ctx) (c : ConnectReq) : List Action :=
+  connectActions (connectCfg v cfg) ctx c
+
+def itemActionsV (v : ServerVariant) (cfg : Cfg) (ctx : Ctx) : ConnItem → List Action
+  | .req r => requestActionsV v cfg ctx r
+  | .connect c => connectActionsV v cfg ctx c
+
+/-- the URL host the controls are evaluated on / the URL host the round trip (the dial) would use, per item -/
+def itemSeenHost (k : Completion) : ConnItem → Option Bytes
+  | .req r => match readRequest r with | .ok g0 => some (k.seenHost g0) | .error _ => none
+  | .connect c => match readRequest c.asRequest with | .ok g0 => some g0.urlHost | .error _ => none
+
+def itemTripHost (k : Completion) : ConnItem → Option Bytes
+  | .req r => match readRequest r with | .ok g0 => some (k.tripHost g0) | .error _ => none
+  | .connect c => match readRequest c.asRequest with | .ok g0 => some g0.urlHost | .error _ => none
+
+/-- the outcome opens no upstream connection by itself -/
+def VOutcome.silent : VOutcome → Bool
+  | .served (.forwarded _ _) => false
+  | _ => true
+
+/-- the outcome is a refusal or an error response of the proxy (never a forwarded request) -/
+def VOutcome.refusedOrError : VOutcome → Bool
+  | .served (.refused _ _) => true
+  | .served .badRequest => true
+  | .serverRefused => true
+  | .noHost => true
+  | _ => false
+
 end C04
 end FwdVerif
